@@ -178,6 +178,7 @@ def run_syscall_shard(spec):
             else:
                 counts["recoveries_checked"] += 1
                 counts["oracle_checks"] += res.get("checks", 0) or 0
+                counts["second_recoveries"] += 1 if res.get("second_recovery") else 0
                 cases.append(Case.make(f"{hist}/{variant}:{lane}:s{k}", HELD, spec=spec_k, nontrivial=pk != "other", key=key, sample=sample))
         shutil.rmtree(base, ignore_errors=True)
         done += 1
@@ -247,6 +248,7 @@ def run_shard(spec):
         else:
             counts["recoveries_checked"] += 1
             counts["oracle_checks"] += res.get("checks", 0) or 0
+            counts["second_recoveries"] += 1 if res.get("second_recovery") else 0
             cases.append(Case.make(f"{hist}/{variant}:k{k}", HELD, spec=spec_k, nontrivial=inside, key=key, sample=sample))
         shutil.rmtree(os.path.join(scratch, tag), ignore_errors=True)
     counts["points_in_history:" + hist + "/" + variant] = n if part == 0 else 0
@@ -305,6 +307,10 @@ def classify(w):
         return "C11-kill-inside-mh-sequences-rewrite-loses-flags"
     if infl == "rename_inbox" and kinds <= {"acknowledged-flags-lost"}:
         return "C11-kill-inside-rename-inbox-loses-flags-of-moved-messages"
+    if infl == "rename_inbox" and kinds and kinds <= {"fetch-failed-after-restart", "mailbox-not-selectable"} and (w.get("detail") or "").startswith("INBOX:"):
+        # killed inside RENAME INBOX; the restart skipped the resync of INBOX because the folder's mtime (one-second
+        # granularity) was not newer than the stored one: INBOX still lists messages that have been moved out
+        return "C11-same-second-mtime-hides-interrupted-rename-inbox"
     if (w.get("kind") == "revealed-uid-denotes-other-message" and w.get("all") and set(w["all"]) == {"revealed-uid-denotes-other-message"} and w.get("deliver_while_down")
             and "now lateDelivery" in (w.get("detail") or "") and (w.get("inflight") or {}).get("kind") in ("expunge", "move", "rename_inbox", "delete", "close")):
         return "C11-key-reuse-while-down-after-interrupted-removal"
